@@ -52,6 +52,8 @@ theorem mkDiag_sound (cfg : Cfg) (d : V K) (dsh : Shape) (ddt : DT) (inSh : Shap
       · simp [hi]
     exact
     { lin := by simp
+      evSz := by szt
+      adSz := by szt
       ev := hev
       ad := by
         intro y j
@@ -89,6 +91,8 @@ theorem mkSid_sound (cfg : Cfg) (c : K) (sk : SK) (sh : Shape) (inDt : DT)
     · simp [hi]
   exact
   { lin := by simp [mkSid]
+    evSz := by szt
+    adSz := by szt
     ev := hev
     ad := by
       intro y j
@@ -123,6 +127,8 @@ theorem mkIdent_sound (sh : Shape) (inDt : DT) (hmode : RealK K ∨ inDt.isCompl
     · simp [hi]
   exact
   { lin := by simp [mkIdent]
+    evSz := by szt
+    adSz := by szt
     ev := hev
     ad := by
       intro y j
